@@ -5,7 +5,7 @@ CONSTANTS
   InitKeyLen = 2
   MaxInitKeys = 2
   UKLen = 1
-  BoundLen = 2
+  BoundLen = 1
   Limits = {0, 1, 2}
   Stops = {0, 1}
   Walk = FALSE
